@@ -90,7 +90,7 @@ impl Serializer {
 //@@ subst `v.len()` => `str_len(v)` rule=R9
 //@@ subst `v.chars().count()` => `str_chars_count(v)` rule=optional-R9
 //@@ subst `(l as u32).to_be_bytes()` => `u32_to_be_bytes(l as u32)` rule=R14
-//@@ subst `.map_err(Into::into)` => `.map_err(|e: IoError| -> (o: Error) { io_into(e) })` rule=R17
+//@@ subst `.map_err(Into::into)` => `.map_err(|e: IoError| -> (o: Error) { io_into(e) })` rule=R17 unless `\.map_err\(`
 //@@ spec
     requires
         old(self).non_native_type is None || is_symbol(old(self).non_native_type),
@@ -166,7 +166,7 @@ impl Serializer {
 //@@ ret Result<(), Error>
 //@@ subst `(l as u32).to_be_bytes()` => `u32_to_be_bytes(l as u32)` rule=R14
 //@@ subst `(l as u8).to_be_bytes()` => `u8_to_be_bytes(l as u8)` rule=R14
-//@@ subst `.map_err(Into::into)` => `.map_err(|e: IoError| -> (o: Error) { io_into(e) })` rule=R17
+//@@ subst `.map_err(Into::into)` => `.map_err(|e: IoError| -> (o: Error) { io_into(e) })` rule=R17 unless `\.map_err\(`
 //@@ spec
     requires
         !(old(self).non_native_type == Some(NonNativeType::Timestamp)) && !is_symbol(old(self).non_native_type),
